@@ -127,7 +127,7 @@ class Write(Contract):
         # (found on the unchanged tree: write(b"01") with window 1 and a hint that calls writeExtended lost b"0";
         # repaired in /repo 271588c)
         n = vmin(L(S.i.data), S.i.window)
-        return band(*[band(veq(e.snap.ch.buf, S.i.data[S.i.window:]), L(e.snap.ch.buf) > 0, e.snap.ch.areWriting == 0,
+        return band(*[band(veq(e.snap.ch.buf, S.i.data[S.i.window:]), e.snap.ch.areWriting == 0,
                            veq(e.args[0], S.i.data[:n]), e.snap.ch.remoteWindowLeft == S.i.window - n)
                       for e in S.trace if e.name == "stopWriting"])
 
@@ -135,7 +135,7 @@ class Write(Contract):
                    overflow_buffered_before_the_application_is_told_to_stop=_hint)
     canaries = [("write(self, data[offset : offset + rmp])", "write(self, data[offset:])", "within_max_packet"),
                 ("self.remoteWindowLeft -= top", "self.remoteWindowLeft -= len(data) + 1", "sent_plus_buffered_is_the_stream"),
-                ("if top > self.remoteWindowLeft:", "if top >= self.remoteWindowLeft:", None)]
+                ("windowFull = top > self.remoteWindowLeft", "windowFull = top >= self.remoteWindowLeft", None)]
 
 
 PENDING = {"none": [], "same": [[7, b"p"]], "other": [[9, b"p"]], "same-other": [[7, b"p"], [9, b"q"]],
